@@ -278,7 +278,7 @@ func parserFaults(c *simkit.Choices, x *simkit.Ctx) *simkit.Violation {
 		if noRef {
 			vs = simkit.NoRef{Visitor: t}
 		}
-		buf := append([]byte{}, data...)
+		buf := simkit.Exact(data)
 		switch sc.Entry {
 		case "parse":
 			return cd.Parse(buf, vs)
